@@ -65,6 +65,7 @@ import Sds.Proofs.GenEqSpZero
 import Sds.Proofs.GenEqSpAll
 import Sds.Proofs.GenEqRL2
 import Sds.Proofs.IterBridge
+import Sds.Proofs.GenEqRLPred
 
 namespace Sds.C10
 open Sds Outcome IterProofs Iter2
@@ -728,5 +729,13 @@ theorem consumed_one_iter_is_its_list {b : BitVector} (g : GenEq.Good b) (m : Mo
         let r ← GenEq.iterGenRun m .compl b.data it calls
         return r.1) = ok (GenEq.listRun (GenEq.enumerate (positionsT .compl b.data)) calls).1 :=
   ⟨GenEq.one_iter_is_its_list g m calls, GenEq.zero_iter_is_its_list g m calls⟩
+
+/-- **the iterator positioned by `RLVector::predecessor`, as translated from the source on this run** (lambda-lifted
+closure, state-passing `advance_if`: see Props/C03 `rl_predecessor_as_translated_from_source`): whenever the model positions
+an iterator, the code as it is NOW positions the same one — so the continuation theorems above apply to it -/
+theorem rl_predecessor_iterator_as_translated_from_source {m : Mode} {v : RL} (hb : GenEq.RLBounds m v) (value : Nat)
+    (hlen : v.len < U64) (hr : min value (v.len - 1) < v.len → GenEq.RangeOK v.rankIndex (min value (v.len - 1)))
+    (r : RLOneIter) (h : RL.predecessor m v value = ok r) : Generated.gen_RLVector_predecessor m v value = ok r :=
+  GenEq.rl_predecessor_eq_of_ok hb value hlen hr r h
 
 end Sds.C10
